@@ -209,6 +209,23 @@ fn run_case(seed: u64, i: u64, srv_l: &TcpListener, prx_l: &TcpListener) -> Stri
         PeerCtl { name: 'A', st: St::Est, tx: a_cmd_tx, rx: a_res_rx, inbox: Default::default() },
     ];
     let mut events: Vec<String> = vec![];
+    // bytes each side has put on the wire so far (the proxy has seen the whole A-ASSOCIATE-RQ/AC)
+    let mut sent_bytes = [c2s.lock().unwrap().len(), s2c.lock().unwrap().len()];
+    let recs = [c2s.clone(), s2c.clone()];
+    // a PDU only counts as sent once the proxy has recorded it: a later close of the sender with
+    // unread input (TCP reset) would otherwise race with the proxy's read (OS level, not modelled)
+    let wait_recorded = |p: usize, want: usize| {
+        for k in 0..40000 {
+            if recs[p].lock().unwrap().len() >= want {
+                return;
+            }
+            if k < 2000 {
+                std::thread::yield_now();
+            } else {
+                std::thread::sleep(Duration::from_micros(50));
+            }
+        }
+    };
     let limit = r.range(3, 16);
     let mut steps = 0;
     loop {
@@ -222,12 +239,23 @@ fn run_case(seed: u64, i: u64, srv_l: &TcpListener, prx_l: &TcpListener) -> Stri
                     if steps < limit {
                         choices.push((p, Some(Cmd::SendData(0)), 6));
                         choices.push((p, Some(Cmd::SendOther), 1));
-                        choices.push((p, Some(Cmd::Release), 3));
-                        choices.push((p, Some(Cmd::Abort), 1));
+                        // likewise `release()` that reads an unexpected PDU drops the association at
+                        // once; with further unread input that is a reset racing with its own request
+                        if peers[p].inbox.len() <= 1 {
+                            choices.push((p, Some(Cmd::Release), 3));
+                        }
+                        // A-ABORT followed at once by a close with unread input is a TCP reset
+                        // that may overtake the A-ABORT itself (OS level): only abort when
+                        // everything sent to this peer has been taken
+                        if peers[p].inbox.is_empty() {
+                            choices.push((p, Some(Cmd::Abort), 1));
+                        }
                         choices.push((p, Some(Cmd::Close), 1));
                     } else {
                         choices.push((p, Some(Cmd::Close), 2));
-                        choices.push((p, Some(Cmd::Release), 2));
+                        if peers[p].inbox.len() <= 1 {
+                            choices.push((p, Some(Cmd::Release), 2));
+                        }
                     }
                     if readable {
                         choices.push((p, Some(Cmd::Recv), 8));
@@ -269,6 +297,8 @@ fn run_case(seed: u64, i: u64, srv_l: &TcpListener, prx_l: &TcpListener) -> Stri
             }
             Some(Cmd::Release) => {
                 let _ = peers[p].tx.send(Cmd::Release);
+                sent_bytes[p] += 10;
+                wait_recorded(p, sent_bytes[p]);
                 peers[p].st = St::Awaiting;
                 peers[q].inbox.push_back("rlrq");
                 events.push(format!("{}/release/-", peers[p].name));
@@ -289,6 +319,14 @@ fn run_case(seed: u64, i: u64, srv_l: &TcpListener, prx_l: &TcpListener) -> Stri
                     Cmd::Close => "close",
                     Cmd::Release => unreachable!(),
                 };
+                if out == "ok" {
+                    sent_bytes[p] += match c {
+                        Cmd::SendData(n) => 12 + n as usize,
+                        Cmd::SendOther | Cmd::Reply | Cmd::Abort => 10,
+                        _ => 0,
+                    };
+                    wait_recorded(p, sent_bytes[p]);
+                }
                 match c {
                     Cmd::SendData(_) => peers[q].inbox.push_back("pd"),
                     Cmd::SendOther => peers[q].inbox.push_back("other"),
@@ -336,10 +374,126 @@ fn run_case(seed: u64, i: u64, srv_l: &TcpListener, prx_l: &TcpListener) -> Stri
     format!("#{} sched {} {} | {} | {}", i, events.len(), events.join(" "), wire_kinds(&c), wire_kinds(&s))
 }
 
+/// a real `dicom-storescp` process (sync or `--non-blocking`) listening on a free port
+struct Scp {
+    child: std::process::Child,
+    port: u16,
+}
+impl Drop for Scp {
+    fn drop(&mut self) {
+        let _ = self.child.kill();
+        let _ = self.child.wait();
+    }
+}
+fn spawn_scp(non_blocking: bool) -> Option<Scp> {
+    let tools = std::env::var("VERIF_TOOLS").ok()?;
+    let exe = std::path::Path::new(&tools).join("dicom-storescp");
+    if !exe.exists() {
+        return None;
+    }
+    let port = TcpListener::bind("127.0.0.1:0").ok()?.local_addr().ok()?.port();
+    let work = std::env::var("VERIF_WORK").unwrap_or_else(|_| "/verif/.work".into());
+    let out = std::path::Path::new(&work).join(format!("c30-scp-out-{}", port));
+    let _ = std::fs::create_dir_all(&out);
+    let mut cmd = std::process::Command::new(exe);
+    cmd.arg("-p").arg(port.to_string()).arg("-o").arg(&out).stdout(std::process::Stdio::null()).stderr(std::process::Stdio::null());
+    if non_blocking {
+        cmd.arg("--non-blocking");
+    }
+    let child = cmd.spawn().ok()?;
+    let scp = Scp { child, port };
+    for _ in 0..200 {
+        if TcpStream::connect(("127.0.0.1", port)).is_ok() {
+            return Some(scp);
+        }
+        std::thread::sleep(Duration::from_millis(50));
+    }
+    None
+}
+
+/// the requestor alone is scripted; the acceptor is the real storescp tool
+fn run_scp_case(seed: u64, i: u64, scp_port: u16, flavour: &str, prx_l: &TcpListener) -> String {
+    let mut r = Rng::for_case(seed, i);
+    let prx_port = prx_l.local_addr().unwrap().port();
+    let c2s = Arc::new(Mutex::new(Vec::new()));
+    let s2c = Arc::new(Mutex::new(Vec::new()));
+    let ip = std::net::Ipv4Addr::new(127, 3, (i / 250 % 250) as u8, (i % 250 + 1) as u8);
+    let (c2s_r, s2c_r) = (c2s.clone(), s2c.clone());
+    let prx = prx_l.try_clone().unwrap();
+    let proxy = std::thread::spawn(move || {
+        let (cli, _) = prx.accept().unwrap();
+        let srv = TcpStream::connect(("127.0.0.1", scp_port)).unwrap();
+        let _ = cli.set_nodelay(true);
+        let _ = srv.set_nodelay(true);
+        let (cli2, srv2) = (cli.try_clone().unwrap(), srv.try_clone().unwrap());
+        let t = std::thread::spawn(move || pump(srv2, cli2, s2c_r));
+        pump(cli, srv, c2s_r);
+        let _ = t.join();
+    });
+    let assoc = ClientAssociationOptions::new()
+        .with_abstract_syntax(A_VERIF)
+        .read_timeout(Duration::from_secs(8))
+        .establish_with(&format!("{}:{}", ip, prx_port));
+    let mut assoc = match assoc {
+        Ok(x) => Some(x),
+        Err(_) => {
+            let _ = proxy.join();
+            return format!("#{} skip scp-establish-failed", i);
+        }
+    };
+    let mut events: Vec<String> = vec![];
+    let n = r.below(5);
+    for _ in 0..n {
+        let x = assoc.as_mut().unwrap();
+        if r.chance(3, 4) {
+            let len = *r.pick(&[0usize, 1, 100, 4000]);
+            // a data PDV that is not the last one: storescp just buffers it
+            let out = res(SyncAssociation::send(
+                x,
+                &Pdu::PData { data: vec![PDataValue { presentation_context_id: 1, value_type: PDataValueType::Data, is_last: false, data: vec![0x42; len] }] },
+            ));
+            events.push(format!("R/sendData/{}", out));
+        } else {
+            let out = res(SyncAssociation::send(
+                x,
+                &Pdu::AssociationRJ(AssociationRJ { result: AssociationRJResult::Transient, source: AssociationRJSource::ServiceUser(AssociationRJServiceUserReason::NoReasonGiven) }),
+            ));
+            events.push(format!("R/sendOther/{}", out));
+        }
+    }
+    match r.below(6) {
+        0 => {
+            let out = res(SyncAssociation::abort(assoc.take().unwrap()));
+            events.push(format!("R/abort/{}", out));
+        }
+        1 => {
+            drop(assoc.take());
+            events.push("R/close/ok".into());
+        }
+        _ => {
+            events.push("R/release/-".into());
+            let out = res(SyncAssociation::release(assoc.take().unwrap()));
+            events.push(format!("R/recv/{}", out));
+        }
+    }
+    let _ = proxy.join();
+    let c = c2s.lock().unwrap();
+    let s = s2c.lock().unwrap();
+    format!("#{} scp {} {} {} | {} | {}", i, flavour, events.len(), events.join(" "), wire_kinds(&c), wire_kinds(&s))
+}
+
+
 fn main() {
     let a = parse_args();
     quiet_panics();
     let mut out = Out::new();
+    // the real storescp tool, sync and async flavour, when the check built it (`pre_build`)
+    let scp_sync = spawn_scp(false);
+    let scp_async = spawn_scp(true);
+    let scp_ports: Option<(u16, u16)> = match (&scp_sync, &scp_async) {
+        (Some(x), Some(y)) => Some((x.port, y.port)),
+        _ => None,
+    };
     let idx: Arc<Vec<u64>> = Arc::new(case_indices(&a).collect());
     let next = Arc::new(std::sync::atomic::AtomicUsize::new(0));
     let (tx, rx) = mpsc::sync_channel::<(usize, String)>(4096);
@@ -354,7 +508,17 @@ fn main() {
                 if k >= idx.len() {
                     break;
                 }
-                let line = run_case(seed, idx[k], &srv_l, &prx_l);
+                let i = idx[k];
+                let line = match scp_ports {
+                    Some((ps, pa)) if i % 5 == 4 => {
+                        if (i / 5) % 2 == 0 {
+                            run_scp_case(seed, i, ps, "sync", &prx_l)
+                        } else {
+                            run_scp_case(seed, i, pa, "async", &prx_l)
+                        }
+                    }
+                    _ => run_case(seed, i, &srv_l, &prx_l),
+                };
                 if tx.send((k, line)).is_err() {
                     break;
                 }
@@ -371,4 +535,6 @@ fn main() {
             want += 1;
         }
     }
+    drop(scp_sync);
+    drop(scp_async);
 }
